@@ -53,7 +53,7 @@ fn step_strategy() -> impl Strategy<Value = Step> {
 pub fn case_strategy() -> impl Strategy<Value = Case> {
     (
         prop_oneof![3 => 1u64..=300, 3 => 1u64..=65536, 1 => prop_oneof![Just(1u64), Just(63), Just(64), Just(65), Just(128), Just(65536)]],
-        1u16..=16,
+        prop_oneof![12 => 1u16..=16, 1 => 17u16..=600],
         prop_oneof![2 => Just(9001u64), 1 => Just(0u64), 2 => any::<u64>()],
         1u8..=3,
         proptest::collection::vec(item_strategy(), 1..40),
@@ -360,7 +360,7 @@ pub fn def() -> PropDef {
         subs: vec![
             Box::new(PropSub {
                 name: "bits_vs_model",
-                rule: "sizes 1..=65536 bits incl. non-multiples of 64, num_hashes 1..=16, seeds, 1..3 compatible filters, item pool of mixed Hash shapes (u64, i32, str, bytes, tuple, chunked-write); steps = insert, contains_and_insert, bursts, union, intersect, invert, reset, round-trip; after every step the decoded image bits == model bits, bits_used == popcount, contains == model for inserted and never-inserted probes, inserted items (tracked through union / intersect) contained. non-trivial = something inserted and (capacity not a power of two or a set operation used)",
+                rule: "sizes 1..=65536 bits incl. non-multiples of 64, num_hashes 1..=16 (one case in 13: 17..=600), seeds, 1..3 compatible filters, item pool of mixed Hash shapes (every integer width incl. 128-bit, bool, char, str, bytes, Vec<u64>, Option, tuples, chunked-write); steps = insert, contains_and_insert, bursts, union, intersect, invert, reset, round-trip; after every step the decoded image bits == model bits, bits_used == popcount, contains == model for inserted and never-inserted probes, inserted items (tracked through union / intersect) contained. non-trivial = something inserted and (capacity not a power of two or a set operation used)",
                 cases_quick: 30_000,
                 cases_thorough: 500_000,
                 max_shrink_iters: 4000,
